@@ -16,7 +16,7 @@
 //	cl <ab|ba>                     the parked Close of that copier completes
 //	relay.end                      tear the scenario down (every parked op fails "closed")
 //	term.new | term.wait <0|1> | term.ev <start|finish|int|term> | term.handler <kind> <path>
-//	term.end
+//	term.release (lets the connections of the "hold" handler path end) | term.end
 //
 // Every Read/Write/Close on the scripted conns blocks until the script completes it, so the
 // script decides the interleaving of the two copier goroutines step by step.  After each
@@ -123,7 +123,8 @@ func verifQuiesce() bool {
 			// a copier goroutine of copyLoop counts as parked only inside a scripted conn
 			// operation (waiting for the script), nowhere else
 			if strings.Contains(stacks[i], "main.copyLoop.func") &&
-				!(s == "chan receive" && strings.Contains(stacks[i], "(*verifConn).park")) {
+				!(s == "chan receive" && (strings.Contains(stacks[i], "(*verifConn).park") ||
+					strings.Contains(stacks[i], "(*verifBufConn).hold"))) {
 				ok = false
 				break
 			}
@@ -428,6 +429,7 @@ func verifNewRelay() *verifRelay {
 // ---------------------------------------------------------------- termMonitor driver
 
 type verifTerm struct {
+	gate     chan struct{} // held connections of the "hold" handler path
 	m        *termMonitor
 	mu       sync.Mutex
 	waiting  bool
@@ -513,21 +515,54 @@ func (f *verifStubFactory) WrapConn(c net.Conn) (net.Conn, error) {
 	return c, nil
 }
 
-// verifBufConn: Read serves a fixed byte string then EOF; writes are swallowed.
+// verifBufConn: Read serves fixed byte strings then EOF; writes are swallowed.  Segment i of
+// `segs` is only served once i Writes have been seen (a SOCKS client waits for the method
+// reply before it sends its request; socks5.Handshake rejects pipelined bytes).
 type verifBufConn struct {
 	verifConn
 	mu     sync.Mutex
+	cond   *sync.Cond
+	segs   [][]byte
+	writes int
 	rd     *bytes.Reader
 	closed bool
+	gate   chan struct{} // if set: the end of the byte string is only reported once the gate is closed
 }
+
+func verifNewBufConn(gate chan struct{}, segs ...[]byte) *verifBufConn {
+	c := &verifBufConn{segs: segs, rd: bytes.NewReader(nil), gate: gate}
+	c.cond = sync.NewCond(&c.mu)
+	return c
+}
+
+// hold parks the reader until the script releases the connection (`term.release`).
+func (c *verifBufConn) hold() { <-c.gate }
 
 func (c *verifBufConn) Read(p []byte) (int, error) {
 	c.mu.Lock()
-	defer c.mu.Unlock()
-	if c.closed {
-		return 0, verifClosed
+	for {
+		if c.closed {
+			c.mu.Unlock()
+			return 0, verifClosed
+		}
+		if c.rd.Len() > 0 || len(c.segs) == 0 {
+			break
+		}
+		if c.writes >= 0 {
+			// next segment: released by the Write that precedes it (none for the first)
+			c.rd = bytes.NewReader(c.segs[0])
+			c.segs = c.segs[1:]
+			c.writes = -1
+			continue
+		}
+		c.cond.Wait()
 	}
-	return c.rd.Read(p)
+	n, err := c.rd.Read(p)
+	c.mu.Unlock()
+	if err == io.EOF && c.gate != nil {
+		c.hold()
+	}
+	return n, err
 }
 
 func (c *verifBufConn) Write(p []byte) (int, error) {
@@ -536,6 +571,8 @@ func (c *verifBufConn) Write(p []byte) (int, error) {
 	if c.closed {
 		return 0, verifClosed
 	}
+	c.writes = 0
+	c.cond.Broadcast()
 	return len(p), nil
 }
 
@@ -543,6 +580,7 @@ func (c *verifBufConn) Close() error {
 	c.mu.Lock()
 	defer c.mu.Unlock()
 	c.closed = true
+	c.cond.Broadcast()
 	return nil
 }
 
@@ -570,22 +608,36 @@ func verifOrPort() *net.TCPAddr {
 	return verifOrLn.Addr().(*net.TCPAddr)
 }
 
-// a complete SOCKS5 no-auth CONNECT 127.0.0.1:80 conversation (client side)
-var verifSocksOK = []byte{5, 1, 0, 5, 1, 0, 1, 127, 0, 0, 1, 0, 80}
+// a complete SOCKS5 no-auth CONNECT 127.0.0.1:80 conversation (client side): the greeting, and
+// after the server's method reply the request
+var verifSocksOK = [][]byte{{5, 1, 0}, {5, 1, 0, 1, 127, 0, 0, 1, 0, 80}}
 
 func (t *verifTerm) handler(kind, path string) bool {
 	var conn net.Conn
 	switch path {
 	case "socksfail", "wrapfail":
-		conn = &verifBufConn{rd: bytes.NewReader(nil)}
+		conn = verifNewBufConn(nil)
 	case "orok":
-		conn = &verifBufConn{rd: bytes.NewReader([]byte("payload from the client"))}
+		conn = verifNewBufConn(nil, []byte("payload from the client"))
 	case "argsfail", "dialfail", "relay":
-		conn = &verifBufConn{rd: bytes.NewReader(verifSocksOK)}
+		conn = verifNewBufConn(nil, verifSocksOK...)
+	case "hold":
+		// both sides stay silent (no EOF) until `term.release`: the handler sits in copyLoop
+		if t.gate == nil {
+			t.gate = make(chan struct{})
+		}
+		if kind == "client" {
+			conn = verifNewBufConn(t.gate, verifSocksOK...)
+		} else {
+			conn = verifNewBufConn(t.gate)
+		}
 	default:
 		return false
 	}
-	f := &verifStubFactory{path: path, remote: &verifBufConn{rd: bytes.NewReader([]byte("payload from the bridge"))}}
+	f := &verifStubFactory{path: path, remote: verifNewBufConn(nil, []byte("payload from the bridge"))}
+	if path == "hold" {
+		f.remote = verifNewBufConn(t.gate)
+	}
 	t.mu.Lock()
 	t.handlers++
 	t.mu.Unlock()
@@ -750,7 +802,21 @@ func verifDriverMain() {
 				continue
 			}
 			reply("ok " + t.status(race))
+		case w[0] == "term.release" && t != nil:
+			if t.gate != nil {
+				close(t.gate)
+				t.gate = nil
+			}
+			if !verifQuiesce() {
+				reply("not-quiescent")
+				continue
+			}
+			reply("ok " + t.status(race))
 		case w[0] == "term.end" && t != nil:
+			if t.gate != nil {
+				close(t.gate)
+				t.gate = nil
+			}
 			// release whatever is still parked: pending senders first, then the waiter
 			for i := 0; i < 1000; i++ {
 				t.mu.Lock()
